@@ -1239,7 +1239,7 @@ def _option_facts_at(F, body, du, c):
         after = set()
         for s in body.succ(tb):
             after |= body.reachable(s, removed={tb})
-        between = {d for d in after if d != c and c in body.reachable(d, removed={tb})}
+        between = {d for d in after if c in body.reachable(d, removed={tb})}          # c itself included: its statements precede the call
         if any(_modifies(body, d, l) for d in between):
             continue
         if known.get(l, v) != v:
@@ -1253,13 +1253,12 @@ def _path_knowing(F, body, du, start, goals, removed, known0):
     locals (known0 at `start`; knowledge about a local is dropped after a block that may change it). None if there is none."""
     from collections import deque
     goals, removed = set(goals), set(removed)
-    tracked = sorted(known0)
     st0 = (start, tuple(sorted(known0.items())))
     prev = {st0: None}
     q = deque([st0])
     while q:
         b, kn = q.popleft()
-        if b in goals and prev[(b, kn)] is not None:
+        if b in goals:
             path, cur = [], (b, kn)
             while cur is not None:
                 path.append(cur[0])
@@ -1719,8 +1718,8 @@ ITER_ADAPTERS = [re.compile(r'Iterator>?::(filter|filter_map|map|inspect|chain|t
                  re.compile(r'IntoIterator>?::into_iter$')]
 
 
-@RS.rule('C16.R15', 'K-CALLERS', 'importing the environment cannot kill the shell: production code never calls std::env::vars (whose iterator '
-         'panics on a name or value that is not valid Unicode); the import that feeds VariableSet::extend_env reads the total accessor '
+@RS.rule('C16.R15', 'K-CALLERS', 'importing the environment and reading the command line cannot kill the shell: production code never calls std::env::vars or '
+         'std::env::args (whose iterators panic on data that is not valid Unicode); the import that feeds VariableSet::extend_env reads the total accessor '
          'std::env::vars_os')
 def r15(cx):
     F = cx.F
@@ -1736,6 +1735,11 @@ def r15(cx):
                          'name or value is not valid Unicode: with any such variable in the environment (`env "$(printf \'X=\\377\')" yash -c :`) '
                          'the shell dies at start-up with exit status 101. std::env::vars_os is the total accessor (entries the shell cannot '
                          'represent can be skipped)', loc=b.loc(t))
+        if nm == 'std::env::args':
+            # the positional parameters and the script name come from here (fix e-args: lossy conversion of args_os)
+            cx.violation(b.root, 'panicking-accessor:std::env::args', 'the command line is read with std::env::args, whose iterator panics on an '
+                         'argument that is not valid Unicode: `yash -c \'echo "$1"\' x "$(printf \'a\\377b\')"` dies with exit status 101 '
+                         'instead of running the command. std::env::args_os is the total accessor', loc=b.loc(t))
     for b in F.bodies.values():
         if _mentions_fn(b, 'std::env::vars'):
             cx.violation(b.root, 'panicking-accessor-as-value:std::env::vars', 'std::env::vars is used as a function value; its iterator '
@@ -1760,10 +1764,12 @@ def r15(cx):
     cx.require(count.get('std::env::vars_os', 0) + count.get('std::env::vars', 0) >= 1,
                'production code calls neither std::env::vars_os nor std::env::vars: the environment is read in another way, the matcher '
                'of this rule would be vacuous (extend_env call sites fed by a std::env accessor: %d)' % fed)
-    # not part of C16 (command-line arguments, not variables), reported for the record
-    if count.get('std::env::args'):
-        cx.site('note (outside C16): std::env::args x%d - its iterator panics on a non-Unicode command-line argument (args_os is total)'
-                % count['std::env::args'])
+    for b in F.bodies.values():
+        if _mentions_fn(b, 'std::env::args'):
+            cx.violation(b.root, 'panicking-accessor-as-value:std::env::args', 'std::env::args is used as a function value; its iterator '
+                         'panics on a non-Unicode command-line argument', loc='%s:%s' % (b.file, b.line))
+    cx.require(count.get('std::env::args_os', 0) + count.get('std::env::args', 0) >= 1,
+               'production code calls neither std::env::args_os nor std::env::args: the command line is read in another way (review)')
 
 
 RS.explanation += (' Added after fixes 1860a4a / 6f410ec / 4fe2991 / f728452: every use of Env::get_or_create_variable (the accessor that applies '
